@@ -141,3 +141,53 @@ func vhSuffixFilter() {
 	}
 	vAssert(len(fsys.writes) == 0 && len(fsys.deletes) == 0, "Open modified the directory")
 }
+
+// vhAliasCase: C18, "two configuration files resolve to the same alias" when
+// the two paths differ only in letter case (directory, base name, suffix, in
+// every combination) - different files on a case-sensitive file system. With
+// file-name aliases they collide iff the base names are equal; with the same
+// explicit alias they always collide; an explicit alias equal to the other
+// file's base name collides too. A collision makes Open fail, otherwise both
+// entities exist under their own alias. Nothing is written either way.
+func vhAliasCase() {
+	vClockFixed(1709640000)
+	fsys := vNewFs()
+	t0 := time.Unix(1700000000, 0)
+	dirs := []string{"sub/", "Sub/", "SUB/"}
+	bases := []string{"ca", "Ca"}
+	sufs := []string{".yaml", ".YAML", ".Yaml"}
+	di, bi, si := vChoose("dir", 3), vChoose("base", 2), vChoose("suffix", 3)
+	vAssume(di+bi+si > 0) // a different path
+	pathA := dirs[0] + bases[0] + sufs[0]
+	pathB := dirs[di] + bases[bi] + sufs[si]
+	mode := vChoose("aliases", 3) // 0 file names, 1 both explicit "x", 2 B explicit = A's base name
+	bodyA, bodyB := "version: 1\nsubject: CN=a\n", "version: 1\nsubject: CN=b\n"
+	aliasA, aliasB := bases[0], bases[bi]
+	switch mode {
+	case 1:
+		bodyA += "alias: x\n"
+		bodyB += "alias: x\n"
+		aliasA, aliasB = "x", "x"
+	case 2:
+		bodyB += "alias: " + bases[0] + "\n"
+		aliasB = bases[0]
+	}
+	fsys.put(pathA, []byte(bodyA), t0)
+	fsys.put(pathB, []byte(bodyB), t0)
+	d := NewFilesystemDatabase(fsys)
+	err := d.Open()
+	if aliasA == aliasB {
+		vReach("collision")
+		vAssert(err != nil, "two configuration files with the same alias (paths differing only in letter case) were accepted")
+	} else {
+		vReach("distinct")
+		vAssert(err == nil, "two files with different aliases were rejected")
+		if err == nil {
+			vAssert(d.NumEntities() == 2, "a configuration file was dropped")
+			ca, _ := d.GetConfig(aliasA)
+			cb, _ := d.GetConfig(aliasB)
+			vAssert(ca != nil && cb != nil, "alias is not the explicit alias / file base name")
+		}
+	}
+	vAssert(len(fsys.writes) == 0 && len(fsys.deletes) == 0, "Open modified the directory")
+}
